@@ -238,7 +238,7 @@ def instances(tier):
 BOUNDS = {
     'quick': 'index version: d in {2,3}, mode sizes <= 3, sample sets: full grid, sparse, duplicates, gaps in the observed domain; '
              'ranks 2,3; noise 0 and symbolic noise scale; order-2 model terms and __call__; functional variant: m<=3 points, n=2, d=2 '
-             'with symbolic points, values, regularisation (m=2 in the quick tier)',
+             'with symbolic points, values, regularisation (m=2 in the quick tier); concrete (real code) order-2 TT on full grids d=2..9',
     'thorough': 'adds full 2x2x2 grid order 2, 3x3 grids, functional variant n=3 / d=3',
 }
 OUTSIDE = ('order-2 TT values for generic data (SVD of derived pair matrices followed by rounding); ANOVA.sample, save/load; '
